@@ -17,7 +17,8 @@ MANIFEST = {
     "text": "Model/Optical.lean is written once over a law-free number class with random numbers "
             "taken from an explicit script of canonical uniforms. Proved at ℝ: from_spherical is "
             "unit; rotate is an isometry in all three branches (dot products and norms kept; image "
-            "of the z axis is rot); Cerenkov "
+            "of the z axis is rot except in the near-axis branch where it is (rx,|ry|,rz): known "
+            "finding rotate-near-axis-sign); Cerenkov "
             "and scintillation photons have unit direction, unit polarisation, dir·pol = 0; Cerenkov "
             "photons are on the cone cosθ = 1/(n β̄), energies inside the grid; positions on the step "
             "segment; times ≥ pre-step time; dN/dx = 0 and no photons requested below threshold; "
@@ -432,10 +433,9 @@ def py_ri(m, e):
 
 
 C_LIGHT = 2.99792458e10
-# polar-angle tolerance: rotate computes sinθ = sqrt(1 − rot_z²); a half-ulp defect of |rot|
-# (make_unit_vector((0,0,dz)) = (0,0,±(1 − 2⁻⁵³)) for ~14 % of dz) becomes a tilt of
-# sqrt(2⁻⁵²) = 1.5e-8 of the cone axis.  Measured maximum 1.5e-8; anything larger is reported.
-CONE_TOL = 4e-8
+# polar-angle tolerance (a numerically-on-axis rot with rho = 0 is treated as exactly on the axis
+# since repo commit 1e0a0e8, so no sqrt(ulp) tilt remains)
+CONE_TOL = 1e-9
 
 
 def check_common(st, p, fails, tag, line, out, dot_tol):
